@@ -6,6 +6,7 @@
 package main
 
 import (
+	"bufio"
 	"bytes"
 	"errors"
 	"flag"
@@ -13,6 +14,7 @@ import (
 	"hash/crc32"
 	"io"
 	"os"
+	"os/exec"
 	"path/filepath"
 	"runtime"
 	"runtime/debug"
@@ -54,6 +56,14 @@ type engine struct {
 	dir     string
 	db      *NoKV.DB
 	T, M, B int
+	childCases int
+	// generated cases in which the engine crashed or got stuck; every such case is shrunk by hlib with
+	// up to a few hundred re-runs, so after the first of them (corpus or generated) the remaining generated cases are skipped
+	// (the run is a VIOLATION with replayable inputs by then)
+	brokenGen  int
+	curBroken  bool
+	skippedGen int
+	lsmMode bool // compactors stopped, LSM maintenance driven explicitly (lsm/verif_lsm_hooks.go)
 	// concurrent window
 	yieldAt  chan int
 	release  chan struct{}
@@ -65,9 +75,9 @@ type engine struct {
 
 func (e *engine) Rule() string {
 	if *prop == "C11" {
-		return "C11: C08 op mix with more crash ops (a value-log record appended by valueLog.write only, then close+open) and crash-image checks (copy of the directory, reopened, GC of every sealed file twice, full dumps compared); non-trivial = at least one crash op left an unreferenced record that a later GC scanned, or an image check ran after >=1 rotation"
+		return "C11: (a) LSM maintenance schedules: unique writes, then rotate / flush / L0->base move / ingest drain / keep (compactors stopped, lsm/verif_lsm_hooks.go) interleaved with value-log GC, before and after reopens, every key read back (Get, GetVersionedEntry, iterator dump) after each step; non-trivial = a drain, then a reopen, then >=2 flushes; (b) C08 op mix with more crash ops (a value-log record appended by valueLog.write only, then close+open) and crash-image checks (copy of the directory, reopened, GC of every sealed file twice, full dumps compared); non-trivial = at least one crash op left an unreferenced record that a later GC scanned, or an image check ran after >=1 rotation"
 	}
-	return "C08: random set/del/setv/delv/get/getv/scan/gc/reopen sequences, plus interrupted writes (valueLog.write only, then close+open; on written keys and on ghost keys the LSM never holds), on the real DB (ValueThreshold T in {16,32,64}, value sizes {0,1,T-1,T,T+1,4T}, file size 200..700 => 2-8 rotations, 1/2/4 buckets), pointers, file lists, records and manifest status compared with the model after every step; non-trivial = some GC run re-inserted >=1 live record and scanned >=1 dead record"
+	return "C08: (a) 30% LSM maintenance schedules as in C11; (b) random set/del/setv/delv/get/getv/scan/gc/reopen sequences, plus interrupted writes (valueLog.write only, then close+open; on written keys and on ghost keys the LSM never holds), on the real DB (ValueThreshold T in {16,32,64}, value sizes {0,1,T-1,T,T+1,4T}, file size 200..700 => 2-8 rotations, 1/2/4 buckets), pointers, file lists, records and manifest status compared with the model after every step; non-trivial = some GC run re-inserted >=1 live record and scanned >=1 dead record"
 }
 
 func (e *engine) opts() *NoKV.Options {
@@ -86,6 +96,10 @@ func (e *engine) opts() *NoKV.Options {
 	o.NumCompactors = 1
 	o.SyncWrites = true
 	o.WriteBatchWait = 0
+	if e.lsmMode {
+		o.NumLevelZeroTables = 1000 // no write stall, no L0 pressure: the case decides when tables move
+		o.IngestCompactBatchSize = 2
+	}
 	return o
 }
 
@@ -131,7 +145,22 @@ func bigVal(r *hlib.Rand, T int) []byte {
 var seedSalt uint64
 
 func (e *engine) Gen(r *hlib.Rand, tier string) []string {
+	if e.curBroken {
+		e.brokenGen++
+		e.curBroken = false
+	}
+	if e.brokenGen >= 1 {
+		e.skippedGen++
+		return []string{"open 32 400 1", "files"}
+	}
 	r = hlib.NewRand(r.U64() ^ (seedSalt * 0xD6E8FEB86659FD93))
+	lsmPct := 30
+	if *prop == "C11" {
+		lsmPct = 45
+	}
+	if r.Chance(lsmPct) {
+		return e.genLSM(r, tier)
+	}
 	T := hlib.Pick(r, []int{16, 32, 64})
 	M := 200 + r.Intn(500)
 	if T == 64 {
@@ -295,7 +324,165 @@ func (e *engine) Gen(r *hlib.Rand, tier string) []string {
 	return ops
 }
 
+// genLSM: maintenance schedules that include LSM-level steps (memtable rotation, flush, L0 -> base
+// level move, ingest drain; compactors stopped) next to value-log GC, before AND after reopens, with a
+// full read-back (every key through Get / GetVersionedEntry plus an iterator dump) after each step:
+// contents may change only through client writes.
+//
+// The LSM is the abstract versioned map here; the open C01/C02 findings (two copies of one internal
+// key in two L0 tables or two ingest tables: the older can win; first source holding any version <= v
+// answers) are kept out of these schedules: every user key is written once (one version per key, so
+// no source ever holds a smaller version of a key than an older source), and GC (which re-inserts
+// under the same internal key) runs only while the older copies sit in the active memtable or below L0.
+// NOTE (found while building this): on the real code the first-hit lookup also makes GC unsafe for
+// multi-version keys — after GC re-inserts k@2 into the memtable, the liveness lookup of the record
+// k@4 (whose entry is in an SST) answers with k@2's pointer, k@4 is judged dead and its file removed.
+func (e *engine) genLSM(r *hlib.Rand, tier string) []string {
+	T := hlib.Pick(r, []int{16, 32})
+	M := 250 + r.Intn(400)
+	B := hlib.Pick(r, []int{1, 1, 2})
+	ops := []string{fmt.Sprintf("open %d %d %d lsm", T, M, B)}
+	var plainW [][]byte           // plain keys written so far (each once)
+	var verW []string             // "hexkey ver" written so far
+	nextPlain, nextVer := 0, 0
+	est := make([]int, B)
+	wrote := func(k, v []byte) {
+		if len(v) >= T {
+			b := 0
+			if B > 1 {
+				b = int(keyHash(k) % uint32(B))
+			}
+			est[b] += 30 + len(k) + len(v)
+		}
+	}
+	val := func() []byte {
+		if r.Chance(65) {
+			return bigVal(r, T)
+		}
+		return genVal(r, T)
+	}
+	writes := func(n int) {
+		for i := 0; i < n; i++ {
+			switch x := r.Intn(100); {
+			case x < 60:
+				k := []byte(fmt.Sprintf("p%02d", nextPlain))
+				nextPlain++
+				plainW = append(plainW, k)
+				if r.Chance(12) {
+					ops = append(ops, fmt.Sprintf("del %s %d", hlib.Hex(k), keyHash(k)))
+				} else {
+					v := val()
+					wrote(k, v)
+					ops = append(ops, fmt.Sprintf("set %s %s %d", hlib.Hex(k), hlib.Hex(v), keyHash(k)))
+				}
+			default:
+				k := []byte(fmt.Sprintf("w%02d", nextVer))
+				nextVer++
+				ver := 1 + r.Intn(6)
+				verW = append(verW, fmt.Sprintf("%s %d", hlib.Hex(k), ver))
+				if r.Chance(12) {
+					ops = append(ops, fmt.Sprintf("delv %s %d %d", hlib.Hex(k), ver, keyHash(k)))
+				} else {
+					v := val()
+					wrote(k, v)
+					ops = append(ops, fmt.Sprintf("setv %s %d %s %d", hlib.Hex(k), ver, hlib.Hex(v), keyHash(k)))
+				}
+			}
+		}
+	}
+	readback := func() {
+		for _, k := range plainW {
+			ops = append(ops, "get "+hlib.Hex(k))
+		}
+		for _, kv := range verW {
+			ops = append(ops, "getv "+kv)
+		}
+		for _, k := range ghostPlain {
+			ops = append(ops, "get "+hlib.Hex(k))
+		}
+		ops = append(ops, "scan")
+	}
+	step := func(s string) {
+		ops = append(ops, s)
+		readback()
+	}
+	flush := func() { step("lsm rotate"); step("lsm flush") }
+	down := func() { step("lsm l0move"); step("lsm drain"); step("lsm l0move"); step("lsm drain") }
+	gcs := func() {
+		for b := 0; b < B; b++ {
+			for f := 0; f <= est[b]/M+1; f++ {
+				if r.Chance(60) {
+					ops = append(ops, fmt.Sprintf("gc %d %d", b, f))
+				}
+			}
+		}
+		ops = append(ops, "files")
+		readback()
+	}
+	reopen := func() {
+		if r.Chance(35) {
+			k := hlib.Pick(r, ghostPlain)
+			ops = append(ops, fmt.Sprintf("crash %s %d %s %d", hlib.Hex(k), maxVer, hlib.Hex(bigVal(r, T)), keyHash(k)))
+		} else {
+			ops = append(ops, "reopen")
+		}
+		readback()
+	}
+	lives := 2
+	if tier == "thorough" && r.Chance(40) {
+		lives = 3
+	}
+	for life := 0; life < lives; life++ {
+		writes(3 + r.Intn(6))
+		readback()
+		if life == 0 && r.Chance(30) {
+			gcs() // first life: everything is still in the active memtable
+		}
+		flush()
+		if life > 0 || r.Chance(50) {
+			// a second flush in the same life: a rotation plus one more flush is what it takes for
+			// file ids handed out after a reopen to be used
+			writes(2 + r.Intn(4))
+			flush()
+		}
+		if r.Chance(85) {
+			down()
+			if r.Chance(40) {
+				step("lsm keep")
+			}
+			if r.Chance(60) {
+				gcs() // older copies are below L0 now; re-inserts go to the memtable
+			}
+		}
+		reopen()
+	}
+	// last life: only new writes and flushes, then read everything that was ever written
+	writes(2 + r.Intn(3))
+	flush()
+	writes(2 + r.Intn(3))
+	flush()
+	ops = append(ops, "reopen")
+	readback()
+	return ops
+}
+
 func (e *engine) Nontrivial(ops, impl, model, spec []string) bool {
+	if len(ops) > 0 && strings.HasSuffix(ops[0], " lsm") {
+		// an LSM schedule is non-trivial when a table was moved below L0 before a reopen and two
+		// flushes happened after it
+		down, reopened, flushes := false, false, 0
+		for i, op := range ops {
+			switch {
+			case op == "lsm drain" && impl[i] == "ok":
+				down = true
+			case down && (op == "reopen" || strings.HasPrefix(op, "crash ")):
+				reopened = true
+			case reopened && op == "lsm flush" && impl[i] == "ok":
+				flushes++
+			}
+		}
+		return flushes >= 2
+	}
 	if *prop == "C11" {
 		crash, gcAfter := false, false
 		for i, op := range ops {
@@ -315,10 +502,25 @@ func (e *engine) Nontrivial(ops, impl, model, spec []string) bool {
 }
 
 func (e *engine) Extra() map[string]any {
-	return map[string]any{"gc_runs_by_kind": e.gcStats, "impl_seconds_by_op": e.opTime}
+	return map[string]any{"gc_runs_by_kind": e.gcStats, "impl_seconds_by_op": e.opTime, "cases_run_in_child_process": e.childCases,
+		"generated_cases_skipped_after_engine_crashes": e.skippedGen}
 }
 
 // ---------------------------------------------------------------- execution
+
+// openDB opens the database; in lsm mode the background compactors are stopped right away and the
+// flush of the memtables recovered from the WAL is awaited, so that every later table movement is one
+// the case asked for.
+func (e *engine) openDB() {
+	e.db = NoKV.Open(e.opts())
+	if e.lsmMode {
+		l := e.db.VerifLSM()
+		l.VerifStopCompactors()
+		if err := l.VerifWaitFlushIdle(); err != nil {
+			panic(err)
+		}
+	}
+}
 
 func (e *engine) close() {
 	if e.db != nil {
@@ -466,11 +668,125 @@ func (e *engine) image() string {
 	return "diff"
 }
 
-func (e *engine) Exec(ops []string) (out []string) {
-	out = make([]string, len(ops))
-	dir, err := os.MkdirTemp(scratchBase(), "hvlog")
+// Exec runs one case in a child process: a broken flush or compaction panics on a background goroutine
+// of the engine (flush worker), which no recover() in the harness can contain, or leaves Close waiting
+// for a flush that never succeeds.  The parent turns a dead child into the observable output `crashed`
+// for the remaining ops; the child gives up (`stuck`) on an op that takes longer than opDeadline.
+func (e *engine) Exec(ops []string) []string {
+	if os.Getenv("VLOG_NO_CHILD") == "" {
+		return e.execChild(ops)
+	}
+	return e.execLocal(ops, nil)
+}
+
+const opDeadline = 45 * time.Second // generous: a close+open took >8 s once on a machine at load 60
+
+// a flush of a few-KB memtable takes milliseconds; one that is still running after 6 s is being
+// retried forever (table build fails)
+func deadlineFor(op string) time.Duration {
+	if op == "lsm flush" {
+		return 6 * time.Second
+	}
+	return opDeadline
+}
+
+func (e *engine) execChild(ops []string) []string {
+	out := make([]string, len(ops))
+	for i := range out {
+		out[i] = "crashed"
+	}
+	if e.gcStats == nil {
+		e.gcStats = map[string]int{}
+	}
+	e.caseGC = map[string]int{}
+	pr, pw, err := os.Pipe()
 	if err != nil {
 		panic(err)
+	}
+	cmd := exec.Command(os.Args[0], "-vlog-child")
+	cmd.Stdin = strings.NewReader(strings.Join(ops, "\n") + "\n")
+	cmd.ExtraFiles = []*os.File{pw}
+	dir, err := os.MkdirTemp(scratchBase(), "hvlogc")
+	if err != nil {
+		panic(err)
+	}
+	defer os.RemoveAll(dir) // also when the child died
+	cmd.Env = append(os.Environ(), "VLOG_DIR="+dir)
+	if err := cmd.Start(); err != nil {
+		panic(err)
+	}
+	pw.Close()
+	done := make(chan struct{})
+	go func() {
+		defer close(done)
+		sc := bufio.NewScanner(pr)
+		sc.Buffer(make([]byte, 1<<20), 64<<20)
+		i := 0
+		for sc.Scan() {
+			line := sc.Text()
+			if strings.HasPrefix(line, "#stats ") {
+				for _, kv := range strings.Fields(line[7:]) {
+					if j := strings.LastIndexByte(kv, '='); j > 0 {
+						n, _ := strconv.Atoi(kv[j+1:])
+						e.gcStats[kv[:j]] += n
+						e.caseGC[kv[:j]] += n // the child ran exactly this case
+					}
+				}
+				continue
+			}
+			if i < len(out) {
+				out[i] = line
+				i++
+			}
+		}
+	}()
+	select {
+	case <-done:
+	case <-time.After(600 * time.Second):
+		_ = cmd.Process.Kill()
+		<-done
+	}
+	_ = cmd.Wait()
+	pr.Close()
+	for _, o := range out {
+		if o == "crashed" || o == "stuck" {
+			e.curBroken = true
+			break
+		}
+	}
+	e.childCases++
+	return out
+}
+
+// childMain: ops on stdin, one output line per op on fd 3, then a stats line.
+func childMain() {
+	w := os.NewFile(3, "results")
+	data, _ := io.ReadAll(os.Stdin)
+	var ops []string
+	for _, l := range strings.Split(string(data), "\n") {
+		if strings.TrimSpace(l) != "" {
+			ops = append(ops, l)
+		}
+	}
+	e := &engine{}
+	e.execLocal(ops, func(i int, o string) { fmt.Fprintln(w, o) })
+	var parts []string
+	for k, v := range e.gcStats {
+		parts = append(parts, fmt.Sprintf("%s=%d", k, v))
+	}
+	fmt.Fprintln(w, "#stats "+strings.Join(parts, " "))
+	w.Close()
+}
+
+func (e *engine) execLocal(ops []string, sink func(int, string)) (out []string) {
+	out = make([]string, len(ops))
+	dir := os.Getenv("VLOG_DIR") // set by the parent of a child run
+	if dir == "" {
+		d, err := os.MkdirTemp(scratchBase(), "hvlog")
+		if err != nil {
+			panic(err)
+		}
+		dir = d
 	}
 	e.dir = dir
 	if e.gcStats == nil {
@@ -498,7 +814,20 @@ func (e *engine) Exec(ops []string) (out []string) {
 	}
 	for i, op := range ops {
 		t0 := time.Now()
-		out[i] = e.one(op)
+		if sink != nil {
+			// child: an op that does not return within opDeadline ends the case
+			ch := make(chan string, 1)
+			go func() { ch <- e.one(op) }()
+			select {
+			case out[i] = <-ch:
+				sink(i, out[i])
+			case <-time.After(deadlineFor(op)):
+				sink(i, "stuck")
+				os.Exit(3) // the parent removes the directory
+			}
+		} else {
+			out[i] = e.one(op)
+		}
 		e.opTime[strings.Fields(op)[0]] += time.Since(t0).Seconds()
 		if os.Getenv("VLOG_TRACE") != "" && time.Since(t0) > 20*time.Millisecond {
 			fmt.Fprintln(os.Stderr, "slow", op, time.Since(t0))
@@ -522,7 +851,8 @@ func (e *engine) one(op string) (res string) {
 	if t[0] == "open" {
 		e.close()
 		e.T, e.M, e.B = int(u(1)), int(u(2)), int(u(3))
-		e.db = NoKV.Open(e.opts())
+		e.lsmMode = len(t) > 4 && t[4] == "lsm"
+		e.openDB()
 		return "ok"
 	}
 	if e.db == nil {
@@ -624,8 +954,36 @@ func (e *engine) one(op string) (res string) {
 		}
 	case "reopen":
 		e.close()
-		e.db = NoKV.Open(e.opts())
+		e.openDB()
 		return "ok"
+	case "lsm":
+		l := db.VerifLSM()
+		switch t[1] {
+		case "rotate":
+			l.VerifRotate()
+			e.gcStats["lsm-rotate"]++
+			return "ok"
+		case "flush":
+			for {
+				did, err := l.VerifFlushOldest()
+				if err != nil {
+					return okErr(err)
+				}
+				if !did {
+					break
+				}
+				e.gcStats["lsm-flushed-memtable"]++
+			}
+			return "ok"
+		case "l0move", "drain", "keep":
+			res, err := l.VerifCompact(t[1])
+			if err != nil {
+				return okErr(err)
+			}
+			e.gcStats["lsm-"+t[1]+"-"+res]++
+			return "ok"
+		}
+		return "badop"
 	case "orphan", "crash":
 		_, err := db.VerifVlogAppendOrphan(kv.CFDefault, hlib.UnHex(t[1]), u(2), hlib.UnHex(t[3]))
 		if err != nil && !strings.Contains(err.Error(), "missing value pointer") {
@@ -633,7 +991,7 @@ func (e *engine) one(op string) (res string) {
 		}
 		if t[0] == "crash" {
 			e.close()
-			e.db = NoKV.Open(e.opts())
+			e.openDB()
 		}
 		return "ok"
 	case "image":
@@ -712,6 +1070,12 @@ func main() {
 					_ = syscall.Dup2(int(null.Fd()), 1)
 				}
 			}
+		}
+	}
+	for _, a := range os.Args {
+		if a == "-vlog-child" {
+			childMain()
+			return
 		}
 	}
 	if os.Getenv("GOGC") == "" {
